@@ -7,6 +7,7 @@ the bridges between the list model (`sumL`, `prodL`, `fwdRow`, `pdEntry`) and `F
 import HydroVerif.Lemmas.C02
 import Mathlib.LinearAlgebra.Matrix.SchurComplement
 import Mathlib.Algebra.BigOperators.Fin
+import Mathlib.LinearAlgebra.Matrix.Determinant.Basic
 
 namespace HydroVerif.C02
 open HydroVerif.C01 Matrix Finset
@@ -121,4 +122,61 @@ theorem fwdRow_ofFn {n : ℕ} (x : Fin n → ℝ) : fwdRow (List.ofFn x) = List.
   rfl
 
 end Softmax
+
+/-! ### the executable Laplace expansion `detL` of Model/C02 (nested lists) is `Matrix.det` -/
+
+theorem eraseIdx_ofFn {α : Type} {n : ℕ} (f : Fin (n + 1) → α) (k : Fin (n + 1)) :
+    (List.ofFn f).eraseIdx k = List.ofFn fun i => f (k.succAbove i) := by
+  apply List.ext_getElem
+  · have := k.isLt
+    simp [List.length_eraseIdx]
+    omega
+  · intro i h1 h2
+    simp only [List.length_ofFn] at h2
+    rw [List.getElem_eraseIdx]
+    split_ifs with h
+    · rw [List.getElem_ofFn, List.getElem_ofFn]; congr 1
+      apply Fin.ext
+      rw [Fin.succAbove_of_castSucc_lt _ _ (Fin.lt_def.mpr (by simpa using h))]; rfl
+    · rw [List.getElem_ofFn, List.getElem_ofFn]; congr 1
+      apply Fin.ext
+      rw [Fin.succAbove_of_le_castSucc _ _ (Fin.le_def.mpr (by simpa using not_lt.mp h))]; rfl
+
+/-- rows of a matrix as nested lists -/
+noncomputable def toL {m n : ℕ} (A : Matrix (Fin m) (Fin n) ℝ) : List (List ℝ) :=
+  List.ofFn fun i => List.ofFn fun j => A i j
+
+theorem laplaceRow_ofFn {n : ℕ} (g : ℕ → ℝ) (s : ℝ) (k : ℕ) (f : Fin n → ℝ) :
+    C02.Softmax.laplaceRow g s k (List.ofFn f) = ∑ j : Fin n, s * (-1) ^ (j : ℕ) * f j * g (k + j) := by
+  induction n generalizing s k with
+  | zero => simp [C02.Softmax.laplaceRow]
+  | succ n ih =>
+    rw [List.ofFn_succ, C02.Softmax.laplaceRow, ih, Fin.sum_univ_succ]
+    simp only [Fin.val_zero, pow_zero, mul_one, add_zero, Fin.val_succ]
+    congr 1
+    apply Finset.sum_congr rfl
+    intro j _
+    rw [pow_succ]
+    have : k + 1 + (j : ℕ) = k + ((j : ℕ) + 1) := by ring
+    rw [this]; ring
+
+theorem detL_toL {n : ℕ} (A : Matrix (Fin n) (Fin n) ℝ) : C02.Softmax.detL n (toL A) = A.det := by
+  induction n with
+  | zero => simp [C02.Softmax.detL]
+  | succ n ih =>
+    have hL : toL A = (List.ofFn fun j => A 0 j) :: toL (fun i : Fin n => A i.succ) := by
+      unfold toL; rw [List.ofFn_succ]
+    rw [hL, C02.Softmax.detL, laplaceRow_ofFn, Matrix.det_succ_row_zero]
+    apply Finset.sum_congr rfl
+    intro j _
+    have hm : (toL (fun i : Fin n => A i.succ)).map (fun row => row.eraseIdx (0 + (j : ℕ)))
+        = toL (A.submatrix Fin.succ j.succAbove) := by
+      unfold toL
+      rw [List.map_ofFn]
+      congr 1; funext i
+      simp only [Function.comp, zero_add]
+      rw [eraseIdx_ofFn]; rfl
+    rw [hm, ih]
+    ring
+
 end HydroVerif.C02
